@@ -12,4 +12,5 @@ func Register(reg func(id, level string, f func(*load.Prog, *report.Report))) {
 	reg("C15", "proof", C15)
 	reg("C16", "proof", C16)
 	reg("C17", "proof", C17)
+	reg("C19", "proof", C19)
 }
